@@ -28,6 +28,7 @@ var casterFns = map[string]func(interface{}) (interface{}, error){
 }
 
 var intCasters = []string{"ToInt", "ToInt64", "ToInt32", "ToInt16", "ToInt8", "ToUint", "ToUint64", "ToUint32", "ToUint16", "ToUint8"}
+
 // the dispatcher cast.To(sample of the integer type, v) must behave as the caster it selects
 var intCallees = append(append([]string{}, intCasters...), "To:int", "To:i64", "To:i32", "To:i16", "To:i8", "To:uint", "To:u64", "To:u32", "To:u16", "To:u8")
 var intTyOfCaster = map[string]string{"ToInt": "int", "ToInt64": "i64", "ToInt32": "i32", "ToInt16": "i16", "ToInt8": "i8",
